@@ -18,7 +18,11 @@
 (* Actions, one per step of a history (n counts them):                     *)
 (*   Write(p,v,lc,tc)  p is replaced by content v # current;  lc: 0 same   *)
 (*                     length / 1 other length; tc: 0 later second,        *)
-(*                     1 same second other nanosecond, 2 mtime preserved   *)
+(*                     1 same second later nanosecond, 2 mtime preserved,  *)
+(*                     3 an EARLIER second, 4 same second earlier          *)
+(*                     nanosecond (cp -p / rsync -t / restore of an older  *)
+(*                     copy: mtimes need not grow; sec and ns may become   *)
+(*                     negative in the model, the harness adds a base)     *)
 (*   Query(p)          this process answers four statements over p (morsel *)
 (*                     aggregate, streaming scan, eager filtered scan,     *)
 (*                     dictionary-group morsel scan, in that order)        *)
@@ -49,6 +53,7 @@ CONSTANTS Paths,        \* e.g. {1} or {1, 2}
           MaxActions,   \* histories of exactly MaxActions steps, the last one a query
           KeyModel,
           VStep,        \* set of version increments a Write may pick (mod NVersions), e.g. {1} or {1, 2}
+          TimeChoices,  \* subset of 0..4, the tc values a Write may pick
           WithX,        \* TRUE: XQuery steps are generated
           EmitOn,       \* TRUE: keep the history and print one CASE per complete history
           Sim           \* TRUE: Next picks ONE random successor (use with -simulate)
@@ -115,8 +120,8 @@ Write(p, dv, lc, tc) ==
   /\ LET f == file[p]
          f1 == [v |-> ((f.v - 1 + dv) % NVersions) + 1,
                 len |-> IF lc = 0 THEN f.len ELSE 1 - f.len,
-                sec |-> IF tc = 0 THEN f.sec + 1 ELSE f.sec,
-                ns |-> IF tc = 0 THEN 0 ELSE IF tc = 1 THEN f.ns + 1 ELSE f.ns,
+                sec |-> IF tc = 0 THEN f.sec + 1 ELSE IF tc = 3 THEN f.sec - 1 ELSE f.sec,
+                ns |-> IF tc \in {0, 3} THEN 0 ELSE IF tc = 1 THEN f.ns + 1 ELSE IF tc = 4 THEN f.ns - 1 ELSE f.ns,
                 gen |-> f.gen + 1]
      IN /\ file' = [file EXCEPT ![p] = f1]
         /\ Log([a |-> "write", p |-> p, v |-> f1.v, len |-> f1.len, sec |-> f1.sec, ns |-> f1.ns, lc |-> lc, tc |-> tc])
@@ -160,13 +165,13 @@ Init == /\ mode \in Modes
 
 Live == n < MaxActions
 NextAll == \E p \in Paths :                    \* (every action needs n < MaxActions)
-             \/ \E dv \in VStep, lc \in 0..1, tc \in 0..2 : Write(p, dv, lc, tc)
+             \/ \E dv \in VStep, lc \in 0..1, tc \in TimeChoices : Write(p, dv, lc, tc)
              \/ Query(p) \/ XQuery(p) \/ Build(p)
 \* -simulate: one weighted random successor per state (rewrites with preserved / same-second time are the point)
 NextSim == Live /\ LET p == RandomElement(Paths)
                        r == RandomElement(1..10)
                    IN IF n = MaxActions - 1 THEN (IF WithX /\ r <= 2 THEN XQuery(p) ELSE Query(p))
-                      ELSE IF r <= 4 THEN Write(p, RandomElement(VStep), RandomElement(0..1), RandomElement(0..2))
+                      ELSE IF r <= 4 THEN Write(p, RandomElement(VStep), RandomElement(0..1), RandomElement(TimeChoices))
                       ELSE IF r <= 7 THEN Query(p)
                       ELSE IF r = 8 /\ WithX THEN XQuery(p)
                       ELSE Build(p)
